@@ -6,6 +6,6 @@ git -C /repo apply "$P" || { echo "patch does not apply"; exit 3; }
 timeout ${TRY_TIMEOUT:-900} python3 /verif/bin/verif check $ID --tier $TIER > /tmp/try_$ID.out 2>&1
 rc=$?
 git -C /repo checkout -- . 
-grep -E "^VIOLATION|^KNOWN|^INFRA|tier=" /tmp/try_$ID.out | head -8
-grep -A1 "^VIOLATION" /tmp/try_$ID.out | grep -v "^VIOLATION" | head -3
+grep -a -E "^VIOLATION|^KNOWN|^INFRA|tier=" /tmp/try_$ID.out | head -8
+grep -a -A1 "^VIOLATION" /tmp/try_$ID.out | grep -a -v "^VIOLATION" | head -3
 echo "exit=$rc"
